@@ -46,9 +46,9 @@ def cases(seed, tier, path):
         f.write(json.dumps({"seed": seed, "idx": n, "kind": "ingest-fault", "mode": "trace", "rows": 600}) + "\n")
         n += 1
         kill_kinds = ["commit-existing", "prune", "merge", "fetch", "pull"] if tier == "quick" else KINDS
-        for rep in range(1 if tier == "quick" else 2):
+        for rep in range(1 if tier == "quick" else 4):
             for k in kill_kinds:
-                for rows in ((300,) if tier == "quick" else (1, 300, 700)):
+                for rows in ((300,) if tier == "quick" else (1, 255, 256, 300, 700)):
                     f.write(json.dumps({"seed": seed + rep, "idx": n, "kind": k, "mode": "kill", "rows": rows}) + "\n")
                     n += 1
         if tier != "quick":
